@@ -4,7 +4,7 @@
 
 /*@unit
 name: str_prepend_char.empty
-define: VP=str, U_PREPEND_CHAR, U_EMPTY
+define: VP=str, VSTR_OWN_MEMMOVE, U_PREPEND_CHAR, U_EMPTY
 src: str.c, obj.c
 enforce: spif_str_prepend_char
 backend: sat,z3
@@ -13,7 +13,7 @@ flags: --slice-formula
 */
 /*@unit
 name: str_prepend_char.nonempty
-define: VP=str, U_PREPEND_CHAR, U_NONEMPTY
+define: VP=str, VSTR_OWN_MEMMOVE, U_PREPEND_CHAR, U_NONEMPTY
 src: str.c, obj.c
 enforce: spif_str_prepend_char
 backend: sat,z3
@@ -22,7 +22,7 @@ flags: --slice-formula
 */
 /*@unit
 name: str_prepend_from_ptr.empty
-define: VP=str, U_PREPEND_FROM_PTR, U_EMPTY
+define: VP=str, VSTR_OWN_MEMMOVE, U_PREPEND_FROM_PTR, U_EMPTY
 src: str.c, obj.c
 enforce: spif_str_prepend_from_ptr
 backend: sat,z3
@@ -31,7 +31,7 @@ flags: --slice-formula
 */
 /*@unit
 name: str_prepend_from_ptr.nonempty
-define: VP=str, U_PREPEND_FROM_PTR, U_NONEMPTY
+define: VP=str, VSTR_OWN_MEMMOVE, U_PREPEND_FROM_PTR, U_NONEMPTY
 src: str.c, obj.c
 enforce: spif_str_prepend_from_ptr
 backend: sat,z3
@@ -40,7 +40,7 @@ flags: --slice-formula
 */
 /*@unit
 name: str_prepend.empty
-define: VP=str, U_PREPEND, U_EMPTY
+define: VP=str, VSTR_OWN_MEMMOVE, U_PREPEND, U_EMPTY
 src: str.c, obj.c
 enforce: spif_str_prepend
 backend: sat,z3
@@ -49,7 +49,7 @@ flags: --slice-formula
 */
 /*@unit
 name: str_prepend.nonempty
-define: VP=str, U_PREPEND, U_NONEMPTY
+define: VP=str, VSTR_OWN_MEMMOVE, U_PREPEND, U_NONEMPTY
 src: str.c, obj.c
 enforce: spif_str_prepend
 backend: sat,z3
@@ -58,7 +58,7 @@ flags: --slice-formula
 */
 /*@unit
 name: ustr_prepend_char.empty
-define: VP=ustr, U_PREPEND_CHAR, U_EMPTY
+define: VP=ustr, VSTR_OWN_MEMMOVE, U_PREPEND_CHAR, U_EMPTY
 src: ustr.c, obj.c
 enforce: spif_ustr_prepend_char
 backend: sat,z3
@@ -67,7 +67,7 @@ flags: --slice-formula
 */
 /*@unit
 name: ustr_prepend_char.nonempty
-define: VP=ustr, U_PREPEND_CHAR, U_NONEMPTY
+define: VP=ustr, VSTR_OWN_MEMMOVE, U_PREPEND_CHAR, U_NONEMPTY
 src: ustr.c, obj.c
 enforce: spif_ustr_prepend_char
 backend: sat,z3
@@ -76,7 +76,7 @@ flags: --slice-formula
 */
 /*@unit
 name: ustr_prepend_from_ptr.empty
-define: VP=ustr, U_PREPEND_FROM_PTR, U_EMPTY
+define: VP=ustr, VSTR_OWN_MEMMOVE, U_PREPEND_FROM_PTR, U_EMPTY
 src: ustr.c, obj.c
 enforce: spif_ustr_prepend_from_ptr
 backend: sat,z3
@@ -85,7 +85,7 @@ flags: --slice-formula
 */
 /*@unit
 name: ustr_prepend_from_ptr.nonempty
-define: VP=ustr, U_PREPEND_FROM_PTR, U_NONEMPTY
+define: VP=ustr, VSTR_OWN_MEMMOVE, U_PREPEND_FROM_PTR, U_NONEMPTY
 src: ustr.c, obj.c
 enforce: spif_ustr_prepend_from_ptr
 backend: sat,z3
@@ -94,7 +94,7 @@ flags: --slice-formula
 */
 /*@unit
 name: ustr_prepend.empty
-define: VP=ustr, U_PREPEND, U_EMPTY
+define: VP=ustr, VSTR_OWN_MEMMOVE, U_PREPEND, U_EMPTY
 src: ustr.c, obj.c
 enforce: spif_ustr_prepend
 backend: sat,z3
@@ -103,7 +103,7 @@ flags: --slice-formula
 */
 /*@unit
 name: ustr_prepend.nonempty
-define: VP=ustr, U_PREPEND, U_NONEMPTY
+define: VP=ustr, VSTR_OWN_MEMMOVE, U_PREPEND, U_NONEMPTY
 src: ustr.c, obj.c
 enforce: spif_ustr_prepend
 backend: sat,z3
